@@ -101,10 +101,12 @@ Definition reslice (three : bool) (v : hval) (i j : nat) : hval :=
 
 Definition h_is_empty (v : hval) : bool := match v with HEmpty => true | _ => false end.
 
-(* model parameters: the two proposed patches (docs/C02.md); both false = the code as it is *)
+(* model parameter: how updateArraySlice reslices.  [current] = the code as it is (v[start:end:end], since
+   the fix commit 8b3b8e6); [two_index] = the code before that fix (v[start:end]), kept for the regression
+   example D4 in HeapWitness.v *)
 Record config := { three_index : bool }.
-Definition as_is : config := {| three_index := false |}.
-Definition patched : config := {| three_index := true |}.
+Definition current : config := {| three_index := true |}.
+Definition two_index : config := {| three_index := false |}.
 
 (* the value returned for a nil input that is returned unchanged is the untyped nil *)
 Definition norm_nil (v : hval) : hval := match v with HNilArr => HNull | _ => v end.
@@ -240,11 +242,13 @@ Fixpoint update (h : heap) (A : alloc) (v : hval) (p : path) (n : hval) : option
 
 End Update.
 
-(* ---- deleteEmpty: rewrites EVERY container it walks, in place ---- *)
-Fixpoint delete_empty (fuel : nat) (h : heap) (v : hval) : option (heap * hval) :=
+(* ---- deleteEmpty(v, a): sweeps, in place, the containers the allocator owns; any other container is
+   returned as it is (markers are only ever written into allocated containers) ---- *)
+Fixpoint delete_empty (fuel : nat) (h : heap) (A : alloc) (v : hval) : option (heap * hval) :=
   match fuel with
   | O => None
   | S f =>
+      if match v with HMap _ | HArr _ _ _ _ => negb (allocated A v) | _ => false end then Some (h, v) else
       match v with
       | HEmpty => Some (h, HNull)
       | HMap a =>
@@ -257,7 +261,7 @@ Fixpoint delete_empty (fuel : nat) (h : heap) (v : hval) : option (heap * hval) 
                 | None => go r h
                 | Some w =>
                     if h_is_empty w then go r (set_obj h a (OMap (filter (fun kv => negb (key_eqb (fst kv) k)) (kvs_of h a))))
-                    else match delete_empty f h w with
+                    else match delete_empty f h A w with
                          | None => None
                          | Some (h1, w') => go r (set_obj h1 a (OMap (insert k w' (kvs_of h1 a))))
                          end
@@ -272,7 +276,7 @@ Fixpoint delete_empty (fuel : nat) (h : heap) (v : hval) : option (heap * hval) 
             | S cnt' =>
                 let w := nth (off + i) (cells_of h a) HNull in
                 if h_is_empty w then go (S i) cnt' j h
-                else match delete_empty f h w with
+                else match delete_empty f h A w with
                      | None => None
                      | Some (h1, w') => go (S i) cnt' (S j) (write_cell h1 a (off + j) w')
                      end
@@ -362,7 +366,7 @@ Definition delpaths (fuel : nat) (h : heap) (A : alloc) (v : hval) (ps : list pa
   match ps with
   | [] => Some (h, A, v)
   | _ => match mark_all h A v ps with
-         | Some (h1, A1, u) => match delete_empty fuel h1 u with
+         | Some (h1, A1, u) => match delete_empty fuel h1 A1 u with
                                | Some (h2, w) => Some (h2, A1, w)
                                | None => None end
          | None => None end
